@@ -189,10 +189,78 @@ type c32Sig struct {
 	mode int
 }
 
+// c32Order permutes the successor's certificate list (the predecessor's order is the identity). Nothing in the
+// statement depends on the order of the successor's certificates; votes are indices into the PREDECESSOR.
+type c32Order struct {
+	kind int // 0 identity, 1 reversed, 2 rotated left by a, 3 positions a and b exchanged
+	a, b int
+}
+
+func (o c32Order) String() string {
+	switch o.kind {
+	case 1:
+		return "reversed"
+	case 2:
+		return fmt.Sprintf("rot%d", o.a)
+	case 3:
+		return fmt.Sprintf("swap%d-%d", o.a, o.b)
+	}
+	return "pred-order"
+}
+
+// applies reports whether the order is a real permutation of a list of length n.
+func (o c32Order) applies(n int) bool {
+	switch o.kind {
+	case 1:
+		return n > 1
+	case 2:
+		return o.a%n != 0
+	case 3:
+		return o.a < n && o.b < n
+	}
+	return true
+}
+
+func (o c32Order) apply(l []c32Ref) []c32Ref {
+	n := len(l)
+	out := append([]c32Ref{}, l...)
+	switch o.kind {
+	case 1:
+		for i := range l {
+			out[i] = l[n-1-i]
+		}
+	case 2:
+		for i := range l {
+			out[i] = l[(i+o.a)%n]
+		}
+	case 3:
+		if o.a < n && o.b < n {
+			out[o.a], out[o.b] = out[o.b], out[o.a]
+		}
+	}
+	return out
+}
+
+func c32Orders(maxLen int, all bool) []c32Order {
+	out := []c32Order{{kind: 1}}
+	for k := 1; k < maxLen; k++ {
+		if all || k == 1 || k == maxLen/2 {
+			out = append(out, c32Order{kind: 2, a: k})
+		}
+	}
+	for a := 0; a < maxLen; a++ {
+		for b := a + 1; b < maxLen; b++ {
+			out = append(out, c32Order{kind: 3, a: a, b: b})
+		}
+	}
+	return out
+}
+
 type c32Succ struct {
 	pred   *c32Pred
 	hdr    int
 	policy int
+	order  c32Order
 	edits  []c32Edit
 	votes  []int
 	sigs   []c32Sig
@@ -203,7 +271,7 @@ func (s *c32Succ) String() string {
 	for _, x := range s.sigs {
 		sg = append(sg, fmt.Sprintf("%v:%d", x.who, x.mode))
 	}
-	return fmt.Sprintf("%s hdr=%s pol=%s edits=%v votes=%v sigs=%v", s.pred.name, c32HdrName[s.hdr], c32PolName[s.policy], s.edits, s.votes, sg)
+	return fmt.Sprintf("%s hdr=%s pol=%s edits=%v order=%v votes=%v sigs=%v", s.pred.name, c32HdrName[s.hdr], c32PolName[s.policy], s.edits, s.order, s.votes, sg)
 }
 
 // certs returns the successor's certificate list (by reference) after the edits.
@@ -214,7 +282,7 @@ func (s *c32Succ) certs() []c32Ref {
 		for i := range out {
 			out[i] = c32Ref{class: out[i].class, idx: out[i].idx, gen: 0, isd: 2}
 		}
-		return out
+		return s.order.apply(out)
 	}
 	for _, e := range s.edits {
 		switch e.kind {
@@ -238,7 +306,7 @@ func (s *c32Succ) certs() []c32Ref {
 			out = append(out, c32Ref{class: e.class, idx: 3, isd: 1})
 		}
 	}
-	return out
+	return s.order.apply(out)
 }
 
 func (s *c32Succ) newQuorum() int {
@@ -688,7 +756,9 @@ func TestC32(t *testing.T) {
 		"plus all duplicate-free single-class lists of length 3, signed by every predecessor and successor certificate; every vote list the spec " +
 		"could accept is additionally run with exactly the required signer set, each required signature missing, made with a foreign key, or made " +
 		"over another payload, and with one superfluous signer; header edits (serial, base, ISD with a full ISD-2 certificate set, noTrustReset, " +
-		"invalid payload, nil predecessor, base TRC with predecessor) x representative updates; base TRCs with each voter signature missing/forged. " +
+		"invalid payload, nil predecessor, base TRC with predecessor) x representative updates; successors whose certificate ORDER differs from the " +
+		"predecessor's (reversed, rotations, every exchange of two positions) x every certificate-set edit x every duplicate-free single-class vote list; " +
+		" base TRCs with each voter signature missing/forged. " +
 		"distinct key = the full symbolic description; non-trivial = anything but the unedited full-signer case"
 	cr := &c32Runner{r: r, reasons: map[string]int64{}}
 	var preds []*c32Pred
@@ -802,6 +872,92 @@ func TestC32(t *testing.T) {
 	})
 	if capped.Load() {
 		r.Capped("budget reached before all (predecessor, edit set, policy) blocks were evaluated")
+	}
+	// reordered successors: the successor lists its certificates in another order than the predecessor (reversed,
+	// rotated, any two positions exchanged), combined with every certificate-set edit. Only the index space of the
+	// votes (predecessor) must matter. Vote lists: every duplicate-free single-class list (the only ones that can be
+	// accepted), with exactly the required signer set and with every certificate signing.
+	{
+		type ojob struct {
+			pred   *c32Pred
+			edits  []c32Edit
+			policy int
+			order  c32Order
+		}
+		var ojobs []ojob
+		orders := c32Orders(10, mc.Thorough())
+		for _, p := range preds {
+			if !mc.Thorough() && p.layout == 1 {
+				continue
+			}
+			for _, es := range editSets {
+				if mc.Thorough() && len(es) > 1 && p.layout == 1 {
+					continue
+				}
+				for _, pol := range []int{c32PolNone, c32PolQuorum} {
+					if !mc.Thorough() && pol != c32PolNone {
+						continue
+					}
+					if len(es) > 1 && pol != c32PolNone {
+						continue
+					}
+					for _, o := range orders {
+						s := &c32Succ{pred: p, edits: es}
+						if o.applies(len(s.certs())) {
+							ojobs = append(ojobs, ojob{p, es, pol, o})
+						}
+					}
+				}
+			}
+		}
+		r.Extra["reordered_blocks"] = len(ojobs)
+		r.Extra["orders"] = len(orders)
+		mc.ParallelFor(len(ojobs), func(ji int) {
+			if r.OutOfBudget() {
+				capped.Store(true)
+				return
+			}
+			j := ojobs[ji]
+			for _, cl := range []c32Class{c32S, c32R} {
+				var lists [][]int
+				for a := 0; a < 3; a++ {
+					lists = append(lists, []int{a})
+					for b := 0; b < 3; b++ {
+						if b == a {
+							continue
+						}
+						lists = append(lists, []int{a, b})
+						for c := 0; c < 3; c++ {
+							if c != a && c != b {
+								lists = append(lists, []int{a, b, c})
+							}
+						}
+					}
+				}
+				for _, l := range lists {
+					votes := make([]int, len(l))
+					for i, x := range l {
+						votes[i] = j.pred.pos(cl, x)
+					}
+					if (!mc.Thorough() || len(j.edits) > 1) && !sort.IntsAreSorted(l) {
+						continue // quick (and pairs of edits): one vote order per set of voters
+					}
+					s := &c32Succ{pred: j.pred, edits: j.edits, policy: j.policy, order: j.order, votes: votes}
+					s.sigs = c32Required(s)
+					cr.judge(s, false)
+					r.Case(s.String(), true)
+					if mc.Thorough() && len(j.edits) <= 1 {
+						s2 := *s
+						s2.sigs = c32Everyone(&s2)
+						cr.judge(&s2, true)
+						r.Case(s2.String(), true)
+					}
+				}
+			}
+		})
+		if capped.Load() {
+			r.Capped("budget reached before all reordered blocks were evaluated")
+		}
 	}
 	// header edits x representative updates
 	for _, p := range preds {
